@@ -143,6 +143,44 @@ Proof.
     change (client (update_session r callee) (s_id s)). now apply client_update.
 Qed.
 
+(** the dealer an aborted CALL leaves behind: [d] itself or [d] with the
+    round-robin cursor of the matched registration moved *)
+Lemma call_abort_dealer_cases : forall lk d caller req opts proc oracle,
+    call_abort_dealer lk d caller req opts proc oracle = d \/
+    exists rg next, match_procedure d proc oracle = Some rg /\
+                    call_abort_dealer lk d caller req opts proc oracle = call_d0 d rg next.
+Proof.
+  intros. unfold call_abort_dealer.
+  destruct (match_procedure d proc oracle) as [rg|]; [|now left].
+  destruct (reg_callees rg) eqn:Ec; [now left|]. rewrite <- Ec.
+  destruct (opt_bool opts "progress" && _); [now left|].
+  destruct (cget (d_bycall d) (s_id caller, req)); [now left|].
+  destruct (select_callee rg oracle) as [[cid next]|]; [|now left].
+  destruct (lk cid); [|now left]. right. exists rg, next. split; reflexivity.
+Qed.
+
+Lemma call_abort_realm_wf : forall r s req opts proc oracle k,
+    realm_wf r -> ids_below k r ->
+    let ra := r_set_dealer r (call_abort_dealer (lookup r) (r_dealer r) s req opts proc oracle) in
+    realm_wf ra /\ ids_below k ra /\ lookup ra = lookup r.
+Proof.
+  intros r s req opts proc oracle k W I ra. subst ra.
+  destruct (call_abort_dealer_cases (lookup r) (r_dealer r) s req opts proc oracle) as [E|(rg & next & Hm & E)]; rewrite E.
+  - rewrite r_set_dealer_same. auto.
+  - pose proof (rw_dealer r W) as WF. pose proof WF as [A B C D E'].
+    pose proof (best_match_sound (lookup r) (r_dealer r) WF proc oracle rg Hm) as [Hr _]. unfold registered in Hr.
+    destruct (call_d0_wf (lookup r) (r_dealer r) rg next A B C Hr) as (A' & B' & C').
+    assert (Wd : dealer_wf (lookup r) (call_d0 (r_dealer r) rg next)).
+    { eapply dealer_wf_calls_same; eauto. apply call_d0_side. }
+    split; [|split; [|reflexivity]].
+    + apply wf_set_dealer; auto.
+      * exact (rw_cr_nonempty r W).
+      * exact (rw_calls_nometa r W).
+      * eapply (mrs_update (dealer0 (r_cfg r)) (r_dealer r) _ (reg_id rg) rg);
+          [exact (rw_metaregs r W)|exact Hr|reflexivity|reflexivity|reflexivity|reflexivity].
+    + destruct I as (I1 & I2 & I3). repeat split; auto.
+Qed.
+
 Theorem handle_wf : forall r s m oracle k,
     realm_wf r -> ids_below k r -> k < max_idN -> find_session (r_clients r) (s_id s) = Some s ->
     realm_wf (fst (handle r s m oracle)) /\ ids_below (k + 1) (fst (handle r s m oracle)).
@@ -230,8 +268,9 @@ Proof.
         -- rewrite F1. exact (rw_cr_nonempty r W).
         -- intros c x Hc. apply F3 in Hc. eapply (rw_calls_nometa r W); eauto.
       * repeat split; cbn [r_set_dealer r_broker r_dealer]; auto. lia.
-    + destruct (leave_wf r (s_id s) k W I) as (W1 & J1 & _).
-      destruct (leave r (s_id s)). apply Up. exact (conj W1 J1).
+    + destruct (call_abort_realm_wf r s req opts proc oracle k W I) as (Wa & Ia & _). cbv zeta in Wa, Ia.
+      destruct (leave_wf _ (s_id s) k Wa Ia) as (W1 & J1 & _).
+      destruct (leave _ (s_id s)). apply Up. exact (conj W1 J1).
     + destruct (call_invoked_wf r s req opts proc args kw oracle k d callee o W I Hk Hs Ecall) as (W2 & J2 & _ & _ & Hcl).
       apply run_meta_invocation_wf; auto.
   - (* CANCEL *)
